@@ -64,10 +64,24 @@ pub fn check_graph(item: u64, g: &GraphSpec, desc: &str, sig: &[Vec<isize>], acc
         Build::Ok(s) => {
             acc.count("build_Ok");
             let js = s.json();
-            let Some(tv) = TableView::from_json(&js) else {
+            let Some(tv) = s.table_view() else {
                 acc.count("harness_errors");
                 return;
             };
+            // the fallback observation channel (derived Debug) must agree with the serialisation
+            if let (Some(a), Some(b)) = (TableView::from_json(&js), TableView::from_debug(&s.debug_string())) {
+                let same = a.loop_number == b.loop_number
+                    && a.spanning == b.spanning
+                    && a.j.iter().zip(&b.j).all(|(x, y)| x.to_bits() == y.to_bits() || (x.is_nan() && y.is_nan()))
+                    && a.dod.iter().zip(&b.dod).all(|(x, y)| x.to_bits() == y.to_bits())
+                    && (a.cached_factor.to_bits() == b.cached_factor.to_bits() || (!a.cached_factor.is_finite() && !b.cached_factor.is_finite()) )
+                    && a.signature == b.signature
+                    && a.externals == b.externals
+                    && a.topology.len() == b.topology.len()
+                    && a.dimension == b.dimension
+                    && a.num_loops == b.num_loops;
+                acc.count(if same { "debug_view_agrees_with_serialisation" } else { "debug_view_DISAGREES_with_serialisation(harness)" });
+            }
             let mut bad: Vec<String> = vec![];
             if tv.loop_number.len() as u64 != full + 1 {
                 bad.push(format!("table has {} entries, expected 2^E = {}", tv.loop_number.len(), full + 1));
